@@ -103,29 +103,52 @@ def coef_in_row(b, fullname, monomial_names):
 
 def cross_credit(b, flows):
     """C07 credit clause for registered cross-currency flows.
-    flows: list of (src_ref, dst_ref, var).  For each: the receiver's F row carries the monomial
-    <src full var>*<cross-rate var> with a positive integer coefficient and the cross-rate series equals
-    XR_src[k]/XR_tgt[k] exactly."""
+    flows: list of (src_ref, dst_ref, var, count, total_out) - count flows to this receiver, total_out registered
+    flows of that variable out of the sender (to any receiver).  Representation independent: in the receiver's emitted F row the
+    monomials that contain the sender's flow variable are collected; the product of their *other* factors, evaluated
+    on the exact series of period k and summed with the coefficients, is the amount credited per unit sent.  It must
+    equal count * XR_src[k] / XR_tgt[k] for every k >= 1; the sender's own row must carry the flow with -count."""
     ext = b.model.ExternalSector
     T = b.exact.horizon
     out = []
-    for src_ref, dst_ref, var in flows:
-        src, dst = b.sectors[src_ref], b.sectors[dst_ref]
-        full = src.GetVariableName(var)
-        c_src, c_dst = src.CurrencyZone.Currency, dst.CurrencyZone.Currency
-        cross = ext['XR'].GetVariableName('%s_%s' % (c_src, c_dst))
-        ok_rate = True
-        for k in range(1, T + 1):
-            xs = _series(b, ext['XR'].GetVariableName(c_src))[k]
-            xt = _series(b, ext['XR'].GetVariableName(c_dst))[k]
-            cr = _series(b, cross)
-            if cr is None or xt == 0 or cr[k] != xs / xt:
-                ok_rate = False
-        coef = coef_in_row(b, dst.GetVariableName('F'), [full, cross])
-        coef_src = coef_in_row(b, src.GetVariableName('F'), [full])
-        out.append({'flow': [src_ref, dst_ref, var], 'rate_exact': ok_rate,
-                    'credit_coef': None if coef is None else str(coef),
-                    'debit_coef': None if coef_src is None else str(coef_src)})
+    for src_ref, dst_ref, var, count, total_out in flows:
+        rec = {'flow': [src_ref, dst_ref, var], 'ok': False, 'detail': ''}
+        try:
+            src, dst = b.sectors[src_ref], b.sectors[dst_ref]
+            full = src.GetVariableName(var)
+            c_src, c_dst = src.CurrencyZone.Currency, dst.CurrencyZone.Currency
+            p = row_poly(b, dst.GetVariableName('F'))
+            if p is None:
+                rec['detail'] = 'receiver ledger is not polynomial'
+                out.append(rec)
+                continue
+            ok = True
+            for k in range(1, T + 1):
+                per_unit = Fraction(0)
+                for m, coef in p.items():
+                    d = dict(m)
+                    if d.get(full) != 1:
+                        continue
+                    val = Fraction(coef)
+                    for n, e in m:
+                        if n == full:
+                            continue
+                        val *= _series(b, n)[k] ** e
+                    per_unit += val
+                xs = _series(b, ext['XR'].GetVariableName(c_src))[k]
+                xt = _series(b, ext['XR'].GetVariableName(c_dst))[k]
+                if xt == 0 or per_unit != count * xs / xt:
+                    ok = False
+                    rec['detail'] = 'k=%d credited %s per unit sent, expected %s' % (k, per_unit, count * xs / xt if xt else 'n/a')
+                    break
+            debit = coef_in_row(b, src.GetVariableName('F'), [full])
+            if debit is None or debit != -total_out:
+                ok = False
+                rec['detail'] += ' sender debit coefficient %s' % debit
+            rec['ok'] = ok
+        except Exception as e:  # noqa - anything the code under test makes impossible to observe counts against the clause
+            rec['detail'] = 'cannot observe credit: %s: %s' % (type(e).__name__, e)
+        out.append(rec)
     return out
 
 
